@@ -5,6 +5,7 @@ package main
 // every statement's outcome.
 
 import (
+	"encoding/json"
 	"fmt"
 	"math/rand"
 	"os"
@@ -257,6 +258,9 @@ func progLabel(progs []tprog, order []int) string {
 
 // txn sched <out.ndjson> <pairs of programs> <three-transaction schedules>
 func txnDriver(args []string) error {
+	if args[0] == "walk" {
+		return txnWalk(args[1:])
+	}
 	if args[0] != "sched" {
 		return fmt.Errorf("txn sched ...")
 	}
@@ -298,6 +302,44 @@ func txnDriver(args []string) error {
 			order := all[rng.Intn(len(all))]
 			sr.run(progs, order, false, progLabel(progs, order))
 		}
+	}
+	fmt.Fprintf(os.Stderr, "schedules=%d statements=%d ok=%d\n", sr.nsch, sr.nstmt, sr.nok)
+	return tw.Close()
+}
+
+// txn walk <walks.json> <out.ndjson>: schedules computed from the state graph of spec/TwoPL (every edge of the
+// graph is taken by some schedule); each entry gives the programs and the step order.
+func txnWalk(args []string) error {
+	eng.Quiet()
+	raw, err := os.ReadFile(args[0])
+	if err != nil {
+		return err
+	}
+	var ws []struct {
+		Progs []struct {
+			Stmts  [][]interface{} `json:"stmts"`
+			Commit bool            `json:"commit"`
+		} `json:"progs"`
+		Order []int `json:"order"`
+	}
+	if err := json.Unmarshal(raw, &ws); err != nil {
+		return err
+	}
+	tw, err := trace.New(args[1])
+	if err != nil {
+		return err
+	}
+	sr := &schedRunner{tw: tw}
+	for _, w := range ws {
+		progs := []tprog{}
+		for _, p := range w.Progs {
+			tp := tprog{commit: p.Commit}
+			for _, st := range p.Stmts {
+				tp.stmts = append(tp.stmts, tstmt{K: st[0].(string), A: int(st[1].(float64)), B: int(st[2].(float64))})
+			}
+			progs = append(progs, tp)
+		}
+		sr.run(progs, w.Order, false, progLabel(progs, w.Order))
 	}
 	fmt.Fprintf(os.Stderr, "schedules=%d statements=%d ok=%d\n", sr.nsch, sr.nstmt, sr.nok)
 	return tw.Close()
